@@ -29,6 +29,9 @@ type Net struct {
 	nextPort  int
 	// Tap, when set, sees every stream write and every datagram ("tcp"/"udp", source, destination, bytes).
 	Tap func(kind string, src, dst net.Addr, data []byte)
+	// DialRecvBuf, when > 0, is the receive buffer of the DIALLING side of new stream connections (the
+	// accepting side keeps RecvBuf): a peer that reads slowly without being unable to send.
+	DialRecvBuf int
 	// AfterWrite, when set, is called (without any lock held) after a stream write has been placed in the
 	// peer's receive buffer and before Write returns: a check can hold the writing goroutine there and
 	// let something else happen between two consecutive writes of one goroutine.
@@ -445,6 +448,9 @@ func (n *Net) DialFrom(src *net.TCPAddr, address, tag string) (*Conn, error) {
 	dst := &net.TCPAddr{IP: ip, Port: port}
 	a2b := newPipe(n.RecvBuf)
 	b2a := newPipe(n.RecvBuf)
+	if n.DialRecvBuf > 0 {
+		b2a = newPipe(n.DialRecvBuf)
+	}
 	ca := &Conn{n: n, local: src, remote: dst, in: b2a, out: a2b, tag: tag}
 	cb := &Conn{n: n, local: dst, remote: src, in: a2b, out: b2a, tag: "accepted"}
 	ca.peer, cb.peer = cb, ca
